@@ -27,7 +27,7 @@ import subprocess
 
 import vlib
 
-THEOREM_MODULES = ["Yarel.Props.C13"]
+THEOREM_MODULES = ["Yarel.Props.C13", "Yarel.Props.ModelLimits"]
 REQUIRED_THEOREMS = ["index_spec", "range_spec", "no_fault", "all_ops_valid", "boundary_iff_prefix", "find_spec",
                      "iter_concat"]
 LEVEL = "proof"
